@@ -1,0 +1,53 @@
+//go:build verif
+
+package cluster
+
+// Contracts for govc (comment-only; compiled only with -tags verif). Properties C18 (inter-node
+// side) and C35.
+//
+//@ spec import lib/std
+//@ spec import C18
+//@ spec import lib/net
+//
+//@ type Service
+//@   stable credentialStore, db, mgr
+//@   stable_set_in New
+//
+//@ func (CredentialStore) AA
+//@   noheap
+//@   ensures [rule] result == aaRule(self, username, password, perm)
+//
+//@ func (*Service) checkCommandPerm
+//@   requires [recv] s != nil && c != nil
+//@   assigns cmdGranted
+//@   ghost update @exit: cmdGranted = update(cmdGranted, c, update(cmdGranted[c], perm, result))
+//@   ensures [off] s.credentialStore == nil ==> result
+//@   ensures [rule] s.credentialStore != nil ==> result == aaRule(s.credentialStore, c.Credentials.GetUsername(), c.Credentials.GetPassword(), perm)
+//@   ensures [recorded] cmdGranted == update(old(cmdGranted), c, update(old(cmdGranted)[c], perm, result))
+//
+//@ func (*Service) checkCommandPermAll
+//@   requires [recv] s != nil && c != nil
+//@   assigns cmdGranted
+//@   ghost update @s.credentialStore.AA: cmdGranted = update(cmdGranted, c, update(cmdGranted[c], perm, result))
+//@   loop 1 invariant [all-so-far] forall j int :: (0 <= j && j < _i) ==> (cmdGranted[c][perms[j]] && aaRule(s.credentialStore, c.Credentials.GetUsername(), c.Credentials.GetPassword(), perms[j]))
+//@   ensures [off] s.credentialStore == nil ==> result
+//@   ensures [all] (s.credentialStore != nil && result) ==> (forall j int :: (0 <= j && j < len(perms)) ==> (cmdGranted[c][perms[j]] && aaRule(s.credentialStore, c.Credentials.GetUsername(), c.Credentials.GetPassword(), perms[j])))
+//@   ensures [some-refused] (s.credentialStore != nil && !result) ==> (exists j int :: 0 <= j && j < len(perms) && !aaRule(s.credentialStore, c.Credentials.GetUsername(), c.Credentials.GetPassword(), perms[j]))
+//
+// handleConn serves any byte stream (C35: safe = no nil dereference, no out-of-range index, no
+// allocation larger than makeBound from a length read off the wire) and performs every state
+// change or data disclosure only for a command whose credentials hold the required permission.
+//@ func (*Service) handleConn
+//@   safe
+//@   requires [recv] s != nil
+//@   assigns *, cmdGranted, chanClosed
+//@   ghost var makeBound int = 67108864
+//@   assert @s.db.Execute: [authz] s.credentialStore == nil || cmdGranted[c]["execute"]
+//@   assert @s.db.Query: [authz] s.credentialStore == nil || cmdGranted[c]["query"]
+//@   assert @s.db.Request: [authz] s.credentialStore == nil || (cmdGranted[c]["query"] && cmdGranted[c]["execute"])
+//@   assert @s.db.Backup: [authz] s.credentialStore == nil || cmdGranted[c]["backup"]
+//@   assert @s.db.Load: [authz] s.credentialStore == nil || cmdGranted[c]["load"]
+//@   assert @s.mgr.Remove: [authz] s.credentialStore == nil || cmdGranted[c]["remove"]
+//@   assert @s.mgr.Notify: [authz] s.credentialStore == nil || cmdGranted[c]["join"]
+//@   assert @s.mgr.Join: [authz] s.credentialStore == nil || (jr.Voter && cmdGranted[c]["join"]) || (!jr.Voter && (cmdGranted[c]["join-read-only"] || cmdGranted[c]["join-read-replica"]))
+//@   assert @s.mgr.Stepdown: [authz] s.credentialStore == nil || cmdGranted[c]["leader-ops"]
